@@ -5,6 +5,9 @@ Decided by
   * Quote.tla: for every string over 11 character classes up to length 4 (quick) / 5 (thorough), every quote style and
     context, the text the escaping rules (M, transcribed from ministring / f_string) hand to eval() lexes (S, an independent
     literal lexer) as closed literals and nothing else - TLC, exhaustive;
+  * FoldGateS.tla / FoldGate.tla: which expressions the constant folder may evaluate at all (S: closed literal arithmetic only; M: the gate of
+    FoldConstants.visit_BinOp) - TLC, exhaustive over 107 380 expression shapes (13 binary x 4 unary operators over 10 leaf kinds, nested); every
+    shape is concretised and run through the real minify() under the monitor, Trace_FoldGate.tla judges whether an eval happened where S allows none;
   * Trace_Eval.tla (EvalMonitor): the audit events of the real minify() on every enumerated string concretised into plain /
     f-string text / nested str / nested call / format spec / nested bytes contexts with payloads that would import a canary
     module if a quote closed early, on folding operands that are not literals, on the shape bank and corpus: every exec must
@@ -13,6 +16,7 @@ Decided by
 """
 import ast
 import itertools
+import json
 import random
 
 from ..common import main_wrapper, sha, MachineryError
@@ -92,8 +96,58 @@ FOLD_ATTACKS = [
 ]
 
 
+LEAF_TEXT = {'num': '3', 'true': 'True', 'none': 'None', 'str': "'a'", 'bytes': "b'a'", 'ellipsis': '...', 'name': 'zq_canary_name',
+             'call': '__import__("zq_canary_mod")', 'attr': 'zq_canary_name.real', 'fstr': 'f"{zq_canary_name}"'}
+UN_TEXT = {'uadd': '+', 'usub': '-', 'invert': '~', 'not': 'not '}
+BIN_TEXT = {'Add': '+', 'Sub': '-', 'Mult': '*', 'Div': '/', 'FloorDiv': '//', 'Mod': '%', 'Pow': '**', 'LShift': '<<', 'RShift': '>>', 'BitOr': '|',
+            'BitXor': '^', 'BitAnd': '&', 'MatMult': '@'}
+
+
+def expr_text(e):
+    """FoldGate.tla expression tree -> fully parenthesised source text"""
+    if e[0] == 'leaf':
+        return LEAF_TEXT[e[1]]
+    if e[0] == 'un':
+        return '(%s%s)' % (UN_TEXT[e[1]], expr_text(e[2]))
+    return '(%s %s %s)' % (expr_text(e[2]), BIN_TEXT[e[1]], expr_text(e[3]))
+
+
+def gate_replay(args, rep, rng):
+    """FoldGate.tla: M |= S by TLC; every exported expression shape through the real minify() under the monitor, judged by Trace_FoldGate"""
+    r = tlc.check_model('FoldGate', 'MC_FoldGate.cfg', timeout=3600)
+    rep.add_model('FoldGate/MC_FoldGate.cfg', r)
+    if r.violated:
+        raise MachineryError('FoldGate.tla: the gate as transcribed does not satisfy S (%s)' % r.violated)
+    cases, _ = tlc.cached_export('FoldGate', 'Export_FoldGate.cfg', timeout=3600)
+    total = len(cases)
+    cases.sort(key=lambda c: json.dumps(c['e']))
+    if args.tier == 'quick':
+        rng.shuffle(cases)
+        cases = cases[:20000]
+    jobs = [{'id': 'g%d' % k, 'src': 'x = %s\n' % expr_text(c['e']), 'opts': {}} for k, c in enumerate(cases)]
+    obs = local.pmap(evalmon.monitored_minify, jobs, chunksize=64)
+    rep.evaluations += len(obs)
+    recs = []
+    drift = 0
+    for c, o in zip(cases, obs):
+        recs.append({'id': o['id'], 'e': c['e'], 'n_exec': o['n_exec']})
+        if o['n_exec']:
+            rep.nontrivial.add(sha(json.dumps(c['e'])))
+        if bool(o['n_exec']) != bool(c['m_evals']):
+            drift += 1
+    verdicts, judged = tlc.judge('Trace_FoldGate', 'Trace_FoldGate.cfg', recs, tag='C12g')
+    rep.add_judged(judged)
+    jb = {j['id']: j for j in jobs}
+    for rid, v in sorted(verdicts.items()):
+        rep.violation(key='gate:' + jb[rid]['src'].strip(), clause=v[0], what='%s source=%r' % (rid, jb[rid]['src']),
+                      replay={'kind': 'minify', 'version': '3.12', 'src_b64': inputs.b64(jb[rid]['src'].encode()), 'opts': {}})
+    rep.extra.update({'foldgate_cases_enumerated_by_tlc': total, 'foldgate_cases_replayed': len(cases), 'foldgate_model_drift': drift})
+    return jobs, obs
+
+
 def run(args, rep):
     rng = random.Random(args.seed)
+    gjobs, gobs = gate_replay(args, rep, rng)
     cfg = 'MC_Quote4.cfg' if args.tier == 'quick' else 'MC_Quote5.cfg'
     r = tlc.check_model('Quote', cfg, timeout=7200)
     rep.add_model('Quote/' + cfg, r)
@@ -132,6 +186,8 @@ def run(args, rep):
         jobs.append({'id': 'file:' + p, 'src': b, 'opts': {}})
     obs = local.pmap(evalmon.monitored_minify, jobs, chunksize=32)
     rep.evaluations += len(obs)
+    jobs = jobs + gjobs          # the events of the FoldGate replays are judged at the event level too
+    obs = obs + gobs
     total_exec = 0
     records = []
     for o in obs:
